@@ -50,7 +50,7 @@ func main() {
 	e.only = *only
 	e.budgetS = *budget
 	if e.budgetS == 0 {
-		e.budgetS = 420
+		e.budgetS = 900
 		if *tier == "thorough" {
 			e.budgetS = 2400
 		}
